@@ -623,6 +623,173 @@ impl Fam for Outer {
     }
 }
 
+// ---- std types whose serde impls take their own decisions (human-readable forms,
+// ---- struct-shaped impls written by hand in serde itself)
+
+impl Fam for std::net::Ipv4Addr {
+    fn gen(rng: &mut Rng, _g: G) -> Self {
+        std::net::Ipv4Addr::from(rng.next_u32())
+    }
+    fn shape(&self) -> Shape {
+        // human-readable formats serialize addresses as strings
+        Shape::Atom(Value::string(self.to_string()))
+    }
+    fn same(&self, o: &Self, _t: bool) -> bool {
+        self == o
+    }
+}
+
+impl Fam for std::net::IpAddr {
+    fn gen(rng: &mut Rng, _g: G) -> Self {
+        if rng.bool() {
+            std::net::IpAddr::V4(std::net::Ipv4Addr::from(rng.next_u32()))
+        } else {
+            std::net::IpAddr::V6(std::net::Ipv6Addr::from(((rng.next_u64() as u128) << 64) | rng.next_u64() as u128))
+        }
+    }
+    fn shape(&self) -> Shape {
+        Shape::Atom(Value::string(self.to_string()))
+    }
+    fn same(&self, o: &Self, _t: bool) -> bool {
+        self == o
+    }
+}
+
+impl Fam for std::net::SocketAddr {
+    fn gen(rng: &mut Rng, g: G) -> Self {
+        std::net::SocketAddr::new(std::net::IpAddr::gen(rng, g), rng.next_u32() as u16)
+    }
+    fn shape(&self) -> Shape {
+        Shape::Atom(Value::string(self.to_string()))
+    }
+    fn same(&self, o: &Self, _t: bool) -> bool {
+        self == o
+    }
+}
+
+impl Fam for std::time::Duration {
+    fn gen(rng: &mut Rng, g: G) -> Self {
+        std::time::Duration::new(u64::gen(rng, g) / 4, rng.below(1_000_000_000) as u32)
+    }
+    fn shape(&self) -> Shape {
+        Shape::Struct(vec![("secs", self.as_secs().shape()), ("nanos", self.subsec_nanos().shape())])
+    }
+    fn same(&self, o: &Self, _t: bool) -> bool {
+        self == o
+    }
+}
+
+impl Fam for std::ops::Range<i32> {
+    fn gen(rng: &mut Rng, g: G) -> Self {
+        i32::gen(rng, g)..i32::gen(rng, g)
+    }
+    fn shape(&self) -> Shape {
+        Shape::Struct(vec![("start", self.start.shape()), ("end", self.end.shape())])
+    }
+    fn same(&self, o: &Self, _t: bool) -> bool {
+        self == o
+    }
+}
+
+impl Fam for std::num::NonZeroU16 {
+    fn gen(rng: &mut Rng, g: G) -> Self {
+        std::num::NonZeroU16::new(u16::gen(rng, g).max(1)).unwrap()
+    }
+    fn shape(&self) -> Shape {
+        self.get().shape()
+    }
+    fn same(&self, o: &Self, _t: bool) -> bool {
+        self == o
+    }
+}
+
+impl Fam for std::num::Wrapping<i16> {
+    fn gen(rng: &mut Rng, g: G) -> Self {
+        std::num::Wrapping(i16::gen(rng, g))
+    }
+    fn shape(&self) -> Shape {
+        self.0.shape()
+    }
+    fn same(&self, o: &Self, _t: bool) -> bool {
+        self == o
+    }
+}
+
+impl Fam for std::borrow::Cow<'static, str> {
+    fn gen(rng: &mut Rng, g: G) -> Self {
+        std::borrow::Cow::Owned(String::gen(rng, g))
+    }
+    fn shape(&self) -> Shape {
+        Shape::Atom(Value::string(&**self))
+    }
+    fn same(&self, o: &Self, _t: bool) -> bool {
+        self == o
+    }
+}
+
+impl Fam for std::path::PathBuf {
+    fn gen(rng: &mut Rng, g: G) -> Self {
+        std::path::PathBuf::from(String::gen(rng, g))
+    }
+    fn shape(&self) -> Shape {
+        Shape::Atom(Value::string(self.to_str().unwrap_or("")))
+    }
+    fn same(&self, o: &Self, _t: bool) -> bool {
+        self == o
+    }
+}
+
+/// A map whose Serialize impl feeds keys and values separately
+/// (serialize_key / serialize_value instead of serialize_entry).
+#[derive(Clone, Debug, PartialEq)]
+pub struct KvMap(pub Vec<(String, i32)>);
+
+impl Serialize for KvMap {
+    fn serialize<S: serde::Serializer>(&self, s: S) -> Result<S::Ok, S::Error> {
+        use serde::ser::SerializeMap;
+        let mut m = s.serialize_map(Some(self.0.len()))?;
+        for (k, v) in self.0.iter() {
+            m.serialize_key(k)?;
+            m.serialize_value(v)?;
+        }
+        m.end()
+    }
+}
+
+impl<'de> serde::Deserialize<'de> for KvMap {
+    fn deserialize<D: serde::Deserializer<'de>>(d: D) -> Result<Self, D::Error> {
+        struct V;
+        impl<'de> serde::de::Visitor<'de> for V {
+            type Value = KvMap;
+            fn expecting(&self, f: &mut std::fmt::Formatter<'_>) -> std::fmt::Result {
+                f.write_str("a map")
+            }
+            fn visit_map<A: serde::de::MapAccess<'de>>(self, mut a: A) -> Result<KvMap, A::Error> {
+                let mut out = Vec::new();
+                // keys and values requested separately, too
+                while let Some(k) = a.next_key::<String>()? {
+                    let v = a.next_value::<i32>()?;
+                    out.push((k, v));
+                }
+                Ok(KvMap(out))
+            }
+        }
+        d.deserialize_map(V)
+    }
+}
+
+impl Fam for KvMap {
+    fn gen(rng: &mut Rng, g: G) -> Self {
+        KvMap((0..gen_len(rng, g).min(6)).map(|_| (String::gen(rng, g.deeper()), i32::gen(rng, g.deeper()))).collect())
+    }
+    fn shape(&self) -> Shape {
+        Shape::Alist(self.0.iter().map(|(k, v)| (k.shape(), v.shape())).collect())
+    }
+    fn same(&self, o: &Self, _t: bool) -> bool {
+        self == o
+    }
+}
+
 /// One registered type with monomorphised entry points.
 pub struct Entry {
     pub name: &'static str,
@@ -649,5 +816,7 @@ pub fn family() -> Vec<Entry> {
         Option<u32>, Option<Option<u8>>, Option<()>, Option<Vec<u8>>, Vec<Option<i16>>, Vec<()>, Vec<String>, Vec<Vec<u8>>, Vec<f64>, Vec<(u8, char)>, BTreeSet<i32>,
         BTreeMap<u8, String>, BTreeMap<char, i32>, BTreeMap<String, Vec<u8>>, BTreeMap<i64, Option<bool>>,
         Rec, E, Vec<E>, Option<E>, BTreeMap<String, E>, Outer,
+        std::net::Ipv4Addr, std::net::IpAddr, std::net::SocketAddr, Option<std::net::IpAddr>, std::time::Duration, std::ops::Range<i32>,
+        std::num::NonZeroU16, std::num::Wrapping<i16>, std::borrow::Cow<'static, str>, std::path::PathBuf, KvMap, Vec<KvMap>,
     ]
 }
